@@ -81,7 +81,7 @@ def run(ctx):
     rng = ctx.rng
     for i in range(nrand):
         a = ["clients=%d" % rng.choice([1, 2, 2, 3]), "futs=%d" % rng.choice([1, 1, 2, 3]), "poolmax=%d" % rng.choice([1, 2, 2, 3]),
-             "poolcap=%d" % rng.choice([1, 1, 2, 4]), "mode=%d" % rng.choice([0, 1, 2, 3]), "abort=%d" % rng.choice([0, 0, 1, 2]),
+             "poolcap=%d" % rng.choice([1, 1, 2, 4]), "mode=%d" % rng.choice([0, 1, 2, 3, 4, 4]), "abort=%d" % rng.choice([0, 0, 1, 2]),
              "sleep=%d" % rng.choice([0, 0, 0, 3000]), "workyield=%d" % rng.choice([0, 1]),
              "--seed", str(ctx.seed * 100003 + i), "--spur", rng.choice(["0", "0", "0.05"])]
         # A queue of capacity 1 together with worker retirement is outside what the shipped constants can reach: the
